@@ -304,6 +304,132 @@ def make_cnls_harness(n_rc: int, window: int):
     return harness
 
 
+# --------------------------------------------------------------------------- Z-HIT offset stage with the real worker
+def make_real_offset_harness(n: int):
+    """the real _adjust_offset run over two weight windows for one reconstruction, in the calling process and through a pool that
+    pickles every task: the same candidates with the same numbers.  The offset fit is a deterministic function of its inputs
+    (uninterpreted under the engine, the real lmfit fit in replays)."""
+    def harness(eng):
+        import pyimpspec.analysis.zhit.offset as zo
+        from sx.values import uf
+        from sx import symnp
+        eng.div_zero_policy = "assume"
+        rec = [eng.real("rec%d" % i, npy=True) for i in range(n)]
+        lnm = [eng.real("lnm%d" % i, npy=True) for i in range(n)]
+        phase = [eng.real("phase%d" % i, npy=True) for i in range(n)]
+        X = [(4 + 0j, -2j, 8j, -16 + 0j)[i] for i in range(n)]      # concrete data (exact in binary): the sort by pseudo chi-squared stays decidable
+        windows = {}
+        for w in ("a", "b"):
+            ws = [eng.real("w%s%d" % (w, i), npy=True) for i in range(n)]
+            for v in ws:
+                eng.assume(v > 0)
+            windows[w] = ws
+
+        def offset_of(ln_fit, ln_exp, weights):
+            return uf("offset_fit", list(ln_fit.flat) + list(ln_exp.flat) + list(weights.flat), real_result=True)
+
+        def rect(mod, ph):
+            return mk_array(eng, [r * uf("cis", [p]) for r, p in zip(mod, ph)], complex)
+
+        class Prog:
+            def set_message(self, *a, **k):
+                pass
+
+            def increment(self, *a, **k):
+                pass
+        def chisqr(Z_exp=None, Z_fit=None, **kw):
+            # a deterministic function of the two spectra (its formula is the subject of C08/C09); keeps the final sort decidable
+            return uf("chisqr", list(Z_exp.flat) + list(Z_fit.flat), real_result=True)
+        saved = (zo._calculate_modulus_offset, zo.rect, zo.Pool, zo._calculate_pseudo_chisqr)
+        if eng.symbolic:
+            zo._calculate_modulus_offset, zo.rect, zo._calculate_pseudo_chisqr = offset_of, rect, chisqr
+        out = []
+        try:
+            for procs in (1, 2):
+                zo.Pool = _pickling_unordered_pool(eng, "offset")
+                recon = [(mk_array(eng, rec), mk_array(eng, phase), "none", "akima")]
+                wopts = {k: mk_array(eng, v) for k, v in windows.items()}
+                out.append(call(zo._adjust_modulus_offset, recon, wopts, mk_array(eng, lnm), mk_array(eng, X, complex), False, procs, Prog()))
+        finally:
+            zo._calculate_modulus_offset, zo.rect, zo.Pool, zo._calculate_pseudo_chisqr = saved
+        (ok1, a), (ok2, b) = out
+        eng.check(ok1 and ok2, "realoffset:completes", lambda: "%r / %r" % (a, b))
+        if not (ok1 and ok2):
+            return
+        A = {r[4]: r for r in a}
+        B = {r[4]: r for r in b}
+        eng.check(sorted(A) == sorted(B) == ["a", "b"], "realoffset:one candidate per window")
+        for w in sorted(set(A) & set(B)):
+            eng.check(bool(same(A[w][0], B[w][0])), "realoffset:same pseudo chi-squared serially and in parallel", lambda: "window %s: %r vs %r" % (w, A[w][0], B[w][0]))
+            for x, y in zip(list(A[w][1].flat), list(B[w][1].flat)):
+                eng.check(bool(same(x, y)), "realoffset:same reconstructed spectrum serially and in parallel", lambda: "window %s" % w)
+        eng.reached("realoffset")
+    return harness
+
+
+def _pickling_unordered_pool(eng, tag):
+    import copy
+
+    class P:
+        def __init__(self, *a, **k):
+            pass
+
+        def __enter__(self):
+            return self
+
+        def __exit__(self, *a):
+            return False
+
+        def imap_unordered(self, fn, args, chunksize=1):
+            res = [copy.deepcopy(fn(copy.deepcopy(a))) for a in args]
+            out = []
+            k = 0
+            while res:
+                out.append(res.pop(eng.choice(len(res), "%s.arrival%d" % (tag, k))))
+                k += 1
+            return _It(out)
+    return P
+
+
+# --------------------------------------------------------------------------- mock data: seeding
+def make_seed_harness():
+    """_add_noise seeds its generator with a deterministic function of the seed for every integer seed (0 and negative ones
+    included), and only an absent seed leaves the generator unseeded"""
+    def harness(eng):
+        import numpy as np
+        import pyimpspec.mock_data as md
+        from pyimpspec.data.data_set import DataSet
+        seed = eng.integer("seed")
+        made = []
+
+        class RS:
+            def __init__(self, seed=None):
+                made.append(seed)
+
+            def normal(self, loc, scale):
+                return np.zeros(len(scale))
+        saved = md.RandomState
+        md.RandomState = RS
+        try:
+            d = DataSet([10.0, 1.0], [1 + 1j, 2 - 1j])
+            ok, res = call(md._add_noise, d, 1.0, seed)
+            ok2, res2 = call(md._add_noise, d, 1.0, None)
+        finally:
+            md.RandomState = saved
+        eng.check(ok and ok2, "seed:noise can be added", lambda: "%r / %r" % (res, res2))
+        if not (ok and ok2):
+            return
+        eng.check(len(made) == 2 and made[1] is None, "seed:no seed leaves the generator unseeded")
+        got = made[0]
+        eng.check(got is not None, "seed:an integer seed always seeds the generator", lambda: "seed %r -> RandomState(seed=None)" % (seed,))
+        if got is not None:
+            want = seed % (2 ** 32)
+            eng.check(bool(same(got, want)) if is_symbolic(got) or is_symbolic(want) else int(got) == int(want), "seed:the generator is seeded with seed mod 2**32",
+                      lambda: "%r vs %r" % (got, want))
+        eng.reached("seed")
+    return harness
+
+
 # --------------------------------------------------------------------------- KK extension search
 def make_kk_harness():
     def harness(eng):
@@ -365,6 +491,15 @@ def obligations(tier: str):
                           "ones); the fitted sum |tau/R| falls strictly with num_RC (symbolic values)" % (n_rc, win, win - 1),
                           functions=[ex._use_cnls], stubs=stubs + ["_cnls_test returns a circuit whose time constant is a symbolic, strictly decreasing function of num_RC"],
                           expect_reach=["cnls"], max_paths=2000000))
+    import pyimpspec.mock_data as md
+    obs.append(Obligation("realoffset", make_real_offset_harness(2 if tier == "quick" else 3), bounds="_adjust_modulus_offset with the real _adjust_offset: one reconstruction x two weight windows, "
+                          "%d points (symbolic reconstruction, phase, weights; concrete data), num_procs 1 (in-process) vs 2 (every task pickled, any arrival order)" % (2 if tier == "quick" else 3),
+                          functions=[zo._adjust_modulus_offset, zo._adjust_offset], stubs=stubs + ["the offset fit is an uninterpreted deterministic function of its inputs; "
+                                                                                                     "rect(r, phi) = r * cis(phi); the pseudo chi-squared is an uninterpreted deterministic function of the two spectra; "
+                                                                                                     "tasks sent to a pool are deep copies"],
+                          expect_reach=["realoffset"], mode="fresh"))
+    obs.append(Obligation("seed", make_seed_harness(), bounds="_add_noise for every integer seed (symbolic) and for no seed", functions=[md._add_noise],
+                          stubs=["numpy.random.RandomState is a recorder (its bit streams are outside)"], expect_reach=["seed"]))
     ms = ("leastsq", "nelder") if tier == "quick" else ("leastsq", "nelder", "powell")
     obs.append(Obligation("realfit", make_real_fit_harness(ms), bounds="fit_circuit(R) with the real _fit_process, methods %s, num_procs 1 (in-process) vs 2 (every task pickled); "
                           "symbolic start value and per-method fitted values, 3 unmasked + 1 masked concrete points" % "/".join(ms),
@@ -384,7 +519,7 @@ EXPLANATION = (
 )
 ASSUMPTIONS = ["worker functions are deterministic functions of their arguments", "sort keys are pairwise distinct (ties are schedule dependent and outside the claim)",
                "Pool.imap / Pool.map deliver in submission order (their documented contract)"]
-OUTSIDE = ["real process scheduling and BLAS threading", "bit-identity of numpy's RandomState / mock data generation", "the cnls timeout path (wall-clock dependent by design)"]
+OUTSIDE = ["real process scheduling and BLAS threading", "the bit streams of numpy's RandomState (that equal seeds give equal streams is numpy's contract)", "the cnls timeout path (wall-clock dependent by design)"]
 
 
 def replay(obligation: str, witness):
